@@ -25,7 +25,7 @@ Extraction "moc_model.ml"
   Freq.freq2hash Freq.hash2freq Freq.cell_of Freq.moc_of_values Freq.moc_of_ranges Freq.from_u64_idx
   SetQuery.query SetQuery.query_pos SetQuery.union_query SetQuery.union_pos SetQuery.union_ids SetQuery.matches_floor
   Neigh.nb8 Neigh.nb4 Neigh.cells_of Neigh.expanded_spec Neigh.contracted_spec Neigh.ext_border_spec Neigh.int_border_spec
-  Neigh.split_okb Neigh.fill_okb Neigh.tf_expanded Neigh.tf_contracted FloodFill.ff_split FloodFill.ext_of
+  Neigh.split_okb Neigh.fill_okb Neigh.tf_expanded Neigh.tf_contracted FloodFill.ff_split FloodFill.ext_of FloodFill.ff_fill FloodFill.ff_fill_smaller
   Valued.select Valued.desc Valued.desc_rev ValuedCheck.check
   SetEffects.mk_file SetEffects.at_prefix SetEffects.n_effects SetEffects.cleanup SetEffects.view SetEffects.sizes_of SetEffects.effects_of
   Mom.mom_sum_hpx Mom.mom_sum_zuniq Mom.mom_filter_hpx Mom.divmod10
